@@ -155,7 +155,8 @@ Definition entry_key (e : entry) : N :=
   match e with EAny k _ _ | ESpecWith k _ _ _ | ESpecWithout k _ _ => k end.
 
 (* ---- AnyObject ---- *)
-Definition any_object_created (k : N) services created (u c : uuid) : res (entry * option devent) :=
+Definition any_object_created (k : N) (services : list (uuid * list (uuid * uuid)))
+    (created : list (uuid * uuid)) (u c : uuid) : res (entry * option devent) :=
   match services with
   | [] =>
       match aget created u with
@@ -165,7 +166,8 @@ Definition any_object_created (k : N) services created (u c : uuid) : res (entry
   | _ => Ok (EAny k services created, None)
   end.
 
-Definition any_object_destroyed (k : N) services created (u c : uuid) : res (entry * option devent) :=
+Definition any_object_destroyed (k : N) (services : list (uuid * list (uuid * uuid)))
+    (created : list (uuid * uuid)) (u c : uuid) : res (entry * option devent) :=
   match aget created u with
   | Some cookie =>
       if N.eqb cookie c
@@ -174,7 +176,8 @@ Definition any_object_destroyed (k : N) services created (u c : uuid) : res (ent
   | None => Ok (EAny k services created, None)
   end.
 
-Definition any_service_created (k : N) (services : list (uuid * list (uuid * uuid))) created
+Definition any_service_created (k : N) (services : list (uuid * list (uuid * uuid)))
+    (created : list (uuid * uuid))
     (ou oc su sc : uuid) : res (entry * option devent) :=
   match aget services su with
   | None => Ok (EAny k services created, None)
@@ -192,7 +195,8 @@ Definition any_service_created (k : N) (services : list (uuid * list (uuid * uui
       end
   end.
 
-Definition any_service_destroyed (k : N) (services : list (uuid * list (uuid * uuid))) created
+Definition any_service_destroyed (k : N) (services : list (uuid * list (uuid * uuid)))
+    (created : list (uuid * uuid))
     (ou oc su sc : uuid) : res (entry * option devent) :=
   match aget services su with
   | None => Ok (EAny k services created, None)
@@ -211,7 +215,8 @@ Definition any_service_destroyed (k : N) (services : list (uuid * list (uuid * u
   end.
 
 (* ---- SpecificObjectWithServices ---- *)
-Definition with_service_created (k : N) (o : uuid) (cookie : option uuid) services
+Definition with_service_created (k : N) (o : uuid) (cookie : option uuid)
+    (services : list (uuid * option uuid))
     (ou oc su sc : uuid) : res (entry * option devent) :=
   if negb (N.eqb ou o) then Ok (ESpecWith k o cookie services, None)
   else match aget services su with
@@ -224,7 +229,8 @@ Definition with_service_created (k : N) (o : uuid) (cookie : option uuid) servic
            else Ok (ESpecWith k o cookie services', None)
        end.
 
-Definition with_service_destroyed (k : N) (o : uuid) (cookie : option uuid) services
+Definition with_service_destroyed (k : N) (o : uuid) (cookie : option uuid)
+    (services : list (uuid * option uuid))
     (ou oc su sc : uuid) : res (entry * option devent) :=
   if negb (N.eqb ou o) then Ok (ESpecWith k o cookie services, None)
   else match aget services su with
@@ -543,3 +549,7 @@ Fixpoint transitions (T : truth) (l : list bus_event) (sp : espec) : list devent
   | [] => []
   | ev :: l' => olist (delta T ev sp) ++ transitions (tstep T ev) l' sp
   end.
+
+(* the events of the current-entities phase of a listener start are creations only *)
+Definition is_creation (ev : bus_event) : bool :=
+  match ev with EvObjectCreated _ _ | EvServiceCreated _ _ _ _ => true | _ => false end.
